@@ -143,44 +143,67 @@ def valOf (ms : List (Msg Desc)) (k : String) : Desc :=
   | [] => []
   | m :: r => if m.key = k then m.val else valOf r k
 
+theorem notifyMsg_other {cfg : Cfg} (now : Int) {nd : Node Desc} {m : Msg Desc} (hk : m.key = "") :
+    notifyMsg cfg now nd m = nd := by
+  unfold notifyMsg; rw [hk]; rfl
+
+theorem notifyMsg_deliver {cfg : Cfg} (now : Int) {nd : Node Desc} {m : Msg Desc} (hk : m.key ≠ "") :
+    notifyMsg cfg now nd m = deliver cfg now nd m := by
+  unfold notifyMsg
+  have : m.key.isEmpty = false := by
+    cases h : m.key.isEmpty with
+    | false => rfl
+    | true => exact absurd (by simpa [String.isEmpty_iff] using h) hk
+  rw [this]; rfl
+
+/-- push/pull: the node stays good, its store only grows, and for every (non-empty) key its value
+becomes the join with the value the message carries for that key -/
 theorem mergeRemoteState_spec (hU : Univ U) {cfg : Cfg} (hcfg : cfg.lit = 0) {clock : Int} (now : Int) (ms : List (Msg Desc))
     (hms : ∀ m ∈ ms, GoodMsg U clock m) (hnodup : (ms.map (·.key)).Nodup) {nd : Node Desc} (hnd : GoodNode U clock nd) :
-    GoodNode U clock (mergeRemoteState cfg now nd ms) ∧
-    (∀ k, Eqv (sval (mergeRemoteState cfg now nd ms).store k) (mergeState (sval nd.store k) (valOf ms k))) := by
+    GoodNode U clock (mergeRemoteState cfg now nd ms) ∧ StoreLe nd.store (mergeRemoteState cfg now nd ms).store ∧
+    (∀ k, k ≠ "" → Eqv (sval (mergeRemoteState cfg now nd ms).store k) (mergeState (sval nd.store k) (valOf ms k))) := by
   induction ms generalizing nd with
   | nil =>
-    refine ⟨hnd, fun k => ?_⟩
+    refine ⟨hnd, StoreLe.refl _, fun k _ => ?_⟩
     simp only [mergeRemoteState, List.foldl_nil, valOf]
     exact (merge_absorb hU (hnd.1.sval k).1 drawn_nil (le_nil (hnd.1.sval k).1)).symm
   | cons m rest ih =>
     have hm := hms m (by simp)
     have hrest : ∀ x ∈ rest, GoodMsg U clock x := fun x hx => hms x (by simp [hx])
     simp only [List.map_cons, List.nodup_cons] at hnodup
-    have hd := deliver_spec hU hcfg now hnd hm
-    obtain ⟨hg, hv⟩ := ih hrest hnodup.2 hd.good
-    simp only [mergeRemoteState, List.foldl_cons] at hg hv ⊢
-    refine ⟨hg, fun k => ?_⟩
+    have hgood := notifyMsg_good hU hcfg now hnd hm
+    obtain ⟨hg, hle, hv⟩ := ih hrest hnodup.2 hgood.1
+    simp only [mergeRemoteState, List.foldl_cons] at hg hle hv ⊢
+    refine ⟨hg, hgood.2.trans hle, fun k hkne => ?_⟩
     unfold valOf
     by_cases hk : m.key = k
     · rw [if_pos hk]
       subst hk
+      have hd : notifyMsg cfg now nd m = deliver cfg now nd m := notifyMsg_deliver now hkne
+      have hds := deliver_spec hU hcfg now hnd hm
+      rw [hd] at hv hgood ⊢
       -- the rest does not touch this key
       have hno : valOf rest m.key = [] := by
         have : m.key ∉ rest.map (·.key) := hnodup.1
-        clear hv hg ih hrest hms
+        clear hv hg hle ih hrest hms
         induction rest with
         | nil => rfl
         | cons x xs ihx =>
           simp only [List.map_cons, List.mem_cons, not_or] at this
           unfold valOf; rw [if_neg (fun e => this.1 e.symm)]
           exact ihx (by simp only [List.map_cons, List.nodup_cons] at hnodup; exact ⟨fun h => hnodup.1 (by simp [h]), hnodup.2.2⟩) this.2
-      have h1 := hv m.key
+      have h1 := hv m.key hkne
       rw [hno] at h1
-      have hsv := (hd.good.1.sval m.key).1
-      exact (h1.trans (merge_absorb hU hsv drawn_nil (le_nil hsv))).trans hd.view
+      have hsv := (hds.good.1.sval m.key).1
+      exact (h1.trans (merge_absorb hU hsv drawn_nil (le_nil hsv))).trans hds.view
     · rw [if_neg hk]
-      have h1 := hv k
-      rw [sval_congr (hd.other k (fun e => hk e.symm))] at h1
+      have h1 := hv k hkne
+      have hsame : getE (notifyMsg cfg now nd m).store k = getE nd.store k := by
+        by_cases he : m.key = ""
+        · rw [notifyMsg_other now he]
+        · rw [notifyMsg_deliver now he]
+          exact (deliver_spec hU hcfg now hnd hm).other k (fun e => hk e.symm)
+      rw [sval_congr hsame] at h1
       exact h1
 
 theorem valOf_localState (st : Store Desc) (k : String) :
